@@ -959,7 +959,7 @@ impl Engine for TlsSim {
             timeout_ms: *rng.pick(&[102, 252, 1002, 3002, 5002]),
             use_clone: rng.chance(1, 2),
             services: rng.range(1, 2) as usize,
-            pipe_cap: *rng.pick(&[512, 1024, 4096, 16384, 1 << 20]),
+            pipe_cap: *rng.pick(&[512, 1024, 4096, 16384, 24_000, 40_000, 1 << 20]),
             payload_seed: rng.next_u64(),
             payload_len: if bulk { *rng.pick(&[70_000usize, 90_000, 130_000]) } else if big { if rng.chance(1, 3) { 65_536 } else { rng.range(8_000, 65_536) as usize } } else { rng.range(0, 3000) as usize },
             max_actions: rng.range(8, 90) as usize,
